@@ -142,6 +142,7 @@ def generate(rng, tier):
         cases.append({"stream": "multi", "input": {"values": [jv(v) for v in vs], "mws": rng.choice(SEQS)}})
     cases += gen_chains(rng, tier, fam)
     cases += gen_edits(rng, tier)
+    cases += gen_libs(rng, tier)
     return cases
 
 
@@ -231,6 +232,101 @@ def gen_edits(rng, tier):
     return cases
 
 
+LIB_HOWS = ["build", "block", "foreign", "after", "stack", "append"]
+LIB_TEXT_HOWS = ("after", "stack", "append")
+LIB_NEAR_TEXT = ["0", "13", "00", "janu", "sept", "x", "{jan}", '"1"', '"March"', "{12}", "jan # feb"]
+
+
+def gen_libs(rng, tier):
+    """The entry lives in a LIBRARY WITH OTHER BLOCKS: @string blocks (their keys are month spellings - the one of the entry,
+    another one, another letter case -, their values too), other entries (also with the same key, a month spelling as key),
+    comments, preambles, blocks that failed.  The middlewares get at the library in six ways (how):
+      build   Library(objects), middleware.transform per middleware        after   parse_string(text, parse_stack=[]), then transform
+      block   middleware.transform_block(block, library) block by block   stack   parse_string(text, parse_stack=[middlewares])
+      foreign transform_block(entry, a library of the OTHER blocks)       append  parse_string(text, append_middleware=[...])
+    blocks: {"t": "e", "k": key, "m": month value or absent, "x": [[field key, value]...]} | {"t": "s", "k", "v"} |
+            {"t": "c" | "i" | "p" | "f", "v": text}"""
+    quick = tier == "quick"
+    cases = []
+
+    def textual(v):
+        return (isinstance(v, int) and v >= 0) or (isinstance(v, str) and v.isascii() and v.isalnum())
+
+    def sval():
+        return rng.choice(['"some text"', '"feb"', "{12}", "{March}", '"x"', "3", '""'])
+
+    def entry(key, v, has=True, extra=None):
+        e = {"t": "e", "k": key, "x": extra or []}
+        if has:
+            e["m"] = jv(v)
+        return e
+
+    def add(blocks, how, mws, **kw):
+        inp = {"blocks": blocks, "how": how, "mws": mws, "inplace": rng.randrange(2), "warm": int(rng.random() < 0.25),
+               "share": rng.randrange(2)}
+        inp.update(kw)
+        cases.append({"stream": "lib", "input": inp})
+    # bounded-exhaustive core: month m x spelling x kind x how; one @string whose key is the spelling itself / its lower case
+    # / the abbreviation of m / the number / something unrelated, before or after the entry
+    for m in range(1, 13):
+        sp = spellings(m)
+        for v in (rng.sample(sp, 3) if quick else sp):
+            for how in LIB_HOWS:
+                for k in range(3):
+                    skeys = [str(v), str(v).lower(), ABBR[m - 1], str(m), "unrelated"]
+                    skey = skeys[0] if rng.random() < 0.6 else rng.choice(skeys)
+                    st = {"t": "s", "k": skey, "v": sval()}
+                    e = entry("key%d" % m, v, extra=[["title", "{T}"]])
+                    blocks = [st, e] if rng.random() < 0.7 else [e, st]
+                    seq = [k] if rng.random() < 0.6 else [rng.randrange(3), k]
+                    add(blocks, how, seq)
+    # random libraries
+    cm = ["jan", "month = jan", "March 12", "x"]
+    for _ in range(500 if quick else 10000):
+        how = rng.choice(LIB_HOWS)
+        text = how in LIB_TEXT_HOWS
+        blocks, months, keys = [], [], []
+        for i in range(rng.randint(1, 4)):
+            r = rng.random()
+            if r < 0.78:
+                v = rng.choice(spellings(rng.randint(1, 12)))
+            elif text:
+                v = rng.choice(LIB_NEAR_TEXT)
+            else:
+                v = rng.choice(NEAR_SMALL)
+            if text and not (textual(v) or v in LIB_NEAR_TEXT):
+                v = str(v) if isinstance(v, int) and v >= 0 else "x"
+            r = rng.random()
+            key = ("k%d" % i if r < 0.7 else rng.choice(keys) if keys and r < 0.8 else
+                   str(v) if textual(v) and isinstance(v, str) and r < 0.9 else rng.choice(ABBR + FULL))
+            keys.append(key)
+            extra = []
+            if rng.random() < 0.5:
+                extra.append(rng.choice([["note", "jan"], ["Month", "feb"], ["title", "{March}"], ["year", "2020"], ["MONTH", "12"],
+                                         ["jan", "month"], ["note", str(v) if textual(v) else "x"]]))
+            has = rng.random() < 0.92
+            blocks.append(entry(key, v, has, extra))
+            if has:
+                months.append(v)
+        pool = [str(v) for v in months if textual(v)]
+        for _ in range(rng.randint(0, 3)):
+            r = rng.random()
+            if pool and r < 0.55:
+                sk = rng.choice(pool)
+            elif pool and r < 0.7:
+                sk = rng.choice([str.lower, str.upper, str.capitalize])(rng.choice(pool))
+            else:
+                sk = rng.choice(rng.choice([ABBR, FULL, ["1", "03", "12", "unrelated", "month"]]))
+            blocks.insert(rng.randint(0, len(blocks)), {"t": "s", "k": sk, "v": sval()})
+        for _ in range(rng.randint(0, 2)):
+            t = rng.choice("cipf")
+            b = {"t": t, "v": rng.choice(cm)}
+            blocks.insert(rng.randint(0, len(blocks)), b)
+        seq = rng.choice(SEQS) if rng.random() < 0.8 else [rng.randrange(3) for _ in range(rng.randint(3, 5))]
+        add(blocks, how, seq)
+    return cases
+
+
 def month_of(v):
     """The month a value spells (property text), or None."""
     if isinstance(v, bool):
@@ -276,6 +372,8 @@ def impl(case):
         return impl_multi(case, MW)
     if "steps" in inp:
         return impl_edit(case, MW)
+    if "blocks" in inp:
+        return impl_lib(case, MW)
     v = unjv(inp["value"])
     shape = inp["shape"]
     if shape == 0:
@@ -497,4 +595,176 @@ def impl_edit(case, MW):
             ok, detail = False, "other fields changed: %r -> %r" % (state["others"], others_of(blk))
     rec["oracle"] = {"ok": ok, "detail": detail}
     rec["summary"] = ("[" + ", ".join("(%r, %s)" % (f.key, sr(f.value)) for f in blk.fields) + "]")[:200] if blk is not None and type(blk).__name__ == "Entry" else "?"
+    return rec
+
+
+def lib_text(specs):
+    """The library as BibTeX text (text modes: month values and keys are plain ASCII tokens, chosen by the generator)."""
+    out = []
+    for i, b in enumerate(specs):
+        t = b["t"]
+        if t == "e":
+            fs = list(b["x"])
+            if "m" in b:
+                fs.insert(min(1, len(fs)), ["month", str(unjv(b["m"]))])
+            out.append("@article{%s,\n%s\n}" % (b["k"], ",\n".join("  %s = %s" % (k, v) for k, v in fs)))
+        elif t == "s":
+            out.append("@string{%s = %s}" % (b["k"], b["v"]))
+        elif t == "c":
+            out.append("@comment{%s}" % b["v"])
+        elif t == "i":
+            out.append(b["v"])
+        elif t == "p":
+            out.append('@preamble{"%s"}' % b["v"])
+        else:
+            out.append("@article{bad%d %s}" % (i, b["v"]))
+    return "\n".join(out) + "\n"
+
+
+def lib_objects(specs):
+    from bibtexparser.model import Entry, Field, String, ExplicitComment, ImplicitComment, Preamble, ParsingFailedBlock
+    out = []
+    for i, b in enumerate(specs):
+        t = b["t"]
+        if t == "e":
+            fs = [Field(k, v, i + 1) for k, v in b["x"]]
+            if "m" in b:
+                fs.insert(min(1, len(fs)), Field("month", unjv(b["m"]), i + 1))
+            out.append(Entry("article", b["k"], fs, start_line=i, raw="@article{%s}" % b["k"]))
+        elif t == "s":
+            out.append(String(b["k"], b["v"], start_line=i, raw="@string{%s = %s}" % (b["k"], b["v"])))
+        elif t == "c":
+            out.append(ExplicitComment(b["v"], start_line=i, raw="@comment{%s}" % b["v"]))
+        elif t == "i":
+            out.append(ImplicitComment(b["v"], start_line=i, raw=b["v"]))
+        elif t == "p":
+            out.append(Preamble(b["v"], start_line=i, raw="@preamble{%s}" % b["v"]))
+        else:
+            out.append(ParsingFailedBlock(Exception("bad " + b["v"]), start_line=i, raw="@article{bad %s}" % b["v"]))
+    return out
+
+
+def impl_lib(case, MW):
+    """Month middlewares over a library that holds more than the entry (see gen_libs).
+
+    Property: the month value an entry has when the month middlewares get at it decides the result alone - whatever @string
+    blocks, other entries, comments or failed blocks stand next to it, and whichever way the middlewares are run: each
+    entry keeps its place among the entries, its key, type and other fields, and its month is expected(last kind, value
+    found).  The value found is read off the library before the month middlewares run (text modes: the same text parsed with
+    the rest of the stack only).  Model comparison (op 11): all blocks before -> all blocks after."""
+    import copy
+    import bibtexparser
+    import enc
+    import implutil
+    from bibtexparser.library import Library
+    from bibtexparser.model import Entry, Field, String
+    inp = case["input"]
+    specs, how, mws = inp["blocks"], inp["how"], inp["mws"]
+    abstract = ("MonthIntMiddleware", "MonthAbbreviationMiddleware", "MonthLongStringMiddleware")
+    state = {}
+
+    def snapshot(blocks):
+        state["sx"] = [enc.enc_block(b, abstract, abstract_prev=True) for b in blocks]
+        state["ents"] = [(b.key, b.entry_type, [(f.key, copy.deepcopy(f.value)) for f in b.fields])
+                         for b in blocks if type(b).__name__ == "Entry"]
+        state["skeys"] = [b.key for b in blocks if type(b).__name__ == "String"]
+
+    def flat(out, t):
+        if t is None:
+            return
+        if isinstance(t, (list, tuple)):
+            out.extend(t)
+        else:
+            out.append(t)
+
+    def run():
+        pool = {}
+        insts = []
+        for k in mws:
+            if inp["share"]:
+                insts.append(pool.setdefault(k, MW[k](allow_inplace_modification=bool(inp["inplace"]))))
+            else:
+                insts.append(MW[k](allow_inplace_modification=bool(inp["inplace"])))
+        if inp["warm"]:
+            # the instances have seen another library before (one whose @string keys are month names)
+            for m in insts:
+                m.transform(Library([String("jan", '"x"'), String("March", "{y}"), String("12", "3"),
+                                     Entry("article", "w", [Field("month", "jan")]), Entry("article", "w2", [Field("month", "zz")])]))
+        if how in LIB_TEXT_HOWS:
+            text = lib_text(specs)
+            if how == "append":
+                snapshot(bibtexparser.parse_string(text).blocks)
+                return bibtexparser.parse_string(text, append_middleware=insts).blocks
+            snapshot(bibtexparser.parse_string(text, parse_stack=[]).blocks)
+            if how == "stack":
+                return bibtexparser.parse_string(text, parse_stack=insts).blocks
+            lib = bibtexparser.parse_string(text, parse_stack=[])
+            for m in insts:
+                lib = m.transform(lib)
+            return lib.blocks
+        lib = Library(lib_objects(specs))
+        if how == "build":
+            snapshot(lib.blocks)
+            for m in insts:
+                lib = m.transform(lib)
+            return lib.blocks
+        if how == "block":
+            snapshot(lib.blocks)
+            for m in insts:
+                out = []
+                for b in lib.blocks:
+                    flat(out, m.transform_block(b, lib))
+                lib = Library(out)
+            return lib.blocks
+        # foreign: the library handed to transform_block holds the other blocks, not the entry
+        ents = [b for b in lib.blocks if type(b).__name__ == "Entry"]
+        rest = Library([b for b in lib.blocks if type(b).__name__ != "Entry"])
+        snapshot(ents)
+        for m in insts:
+            out = []
+            for b in ents:
+                flat(out, m.transform_block(b, rest))
+            ents = out
+        return ents
+    r = implutil.guarded(run)
+    rec = {"key": json.dumps(inp, sort_keys=True), "nontrivial": True, "tags": ["lib", "lib-" + how]}
+    rec["sx_in"] = [11, mws, state["sx"]] if "sx" in state else None
+    if r[0] == "exc":
+        rec["sx_out"] = implutil.r_exc(r[1]) if rec["sx_in"] is not None else None
+        rec["oracle"] = {"ok": False, "detail": "raised %s on the library %r run as %r with middlewares %r" % (r[2], specs, how, mws)}
+        rec["summary"] = "raised " + r[2]
+        return rec
+    blocks = r[1]
+    rec["sx_out"] = implutil.r_ok([enc.enc_block(b, abstract, abstract_prev=True) for b in blocks])
+    found = [v for _, _, fs in state["ents"] for k, v in fs if k == "month"]
+    if any(isinstance(v, str) and (not enc.lower_is_ascii_only(v) or (v.isdecimal() and not v.isascii())) for v in found):
+        rec["skip"] = True
+    if any(not isinstance(v, (str, int, list, type(None))) for v in found):
+        rec["skip"] = True
+    if any(str(v) in state["skeys"] for v in found):
+        rec["tags"].append("lib-month-is-string-key")
+    ok, detail = True, ""
+    after = [b for b in blocks if type(b).__name__ == "Entry"]
+    if len(after) != len(state["ents"]):
+        ok, detail = False, "%d entries before, %d after" % (len(state["ents"]), len(after))
+    else:
+        def same(a, b):
+            return type(a) is type(b) and (a == b or (a != a and b != b))
+        for i, ((key, typ, fs), b) in enumerate(zip(state["ents"], after)):
+            last = max([j for j, (k, _) in enumerate(fs) if k == "month"], default=-1)
+            if b.key != key or b.entry_type != typ or [f.key for f in b.fields] != [k for k, _ in fs]:
+                ok, detail = False, "entry %d (%r): key, type or field keys changed" % (i, key)
+                break
+            for j, ((k, v), f) in enumerate(zip(fs, b.fields)):
+                exp = expected(mws[-1], v) if j == last else v
+                if not same(f.value, exp):
+                    ok = False
+                    detail = ("entry %d (%r) of a library %s with @string keys %r, run as %r through %r: field %r = %s gave %s (%s), expected %s"
+                              % (i, key, [s["t"] for s in specs], state["skeys"], how, mws, k, sr(v), sr(f.value), type(f.value).__name__,
+                                 sr(exp)))
+                    break
+            if not ok:
+                break
+    rec["oracle"] = {"ok": ok, "detail": detail}
+    rec["summary"] = repr([[(f.key, f.value) for f in b.fields] for b in after])[:200]
     return rec
